@@ -212,23 +212,23 @@ def rnd_history(rnd, nops, zst):
     return prog
 
 
-def traces(ctx, zst=None):
+def traces(ctx, zst=None, release=False):
     if zst is None:
         zst = ctx.pid in ("C18", "C07")
     nhist, nops = (150, 60) if ctx.tier == "quick" else (2500, 80)
     prog = []
     for _ in range(nhist):
         prog += rnd_history(ctx.rnd, nops, zst)
-    events = run_harness("volatile", prog, os.path.join(WORK, "tr_volatile_%s.ev.ndjson" % ctx.pid), ctx=ctx)
+    events = run_harness("volatile", prog, os.path.join(WORK, "tr_volatile_%s.ev.ndjson" % ctx.pid), ctx=ctx, release=release)
     skipped = sum(1 for e in events if e["r"].get("k") == "skip")
     chunk, k = [], 0
     for h in split_events(events):
         chunk += h
         if len(chunk) > 50000:
-            judge(ctx, "tr_volatile_%s_%d" % (ctx.pid, k), chunk)
+            judge(ctx, "tr_volatile_%s%s_%d" % (ctx.pid, "r" if release else "", k), chunk)
             chunk, k = [], k + 1
     if chunk:
-        judge(ctx, "tr_volatile_%s_%d" % (ctx.pid, k), chunk)
+        judge(ctx, "tr_volatile_%s%s_%d" % (ctx.pid, "r" if release else "", k), chunk)
     ctx.cov["traces_validated_against_impl"] += nhist
     ctx.cov["random_ops_applicable"] = ctx.cov.get("random_ops_applicable", 0) + len(events) - skipped
     ctx.sample({"kind": "recorded history validated by Trace_Volatile", "events":
